@@ -256,11 +256,11 @@ impl ViCut {
 			#[cfg(vicut_verif)]
 			let verif_cmd = cmd.clone();
 			self.exec_cmd(cmd)?;
-			#[cfg(vicut_verif)]
-			crate::verif::trace_after(self, &verif_cmd);
 			if return_to_normal {
 				self.set_normal_mode();
 			}
+			#[cfg(vicut_verif)]
+			crate::verif::trace_after(self, &verif_cmd);
 		}
 		if matches!(self.mode.report_mode(), ModeReport::Search | ModeReport::Ex)
 			&& !self.mode.pending_seq().unwrap().is_empty() {
@@ -275,11 +275,11 @@ impl ViCut {
 					#[cfg(vicut_verif)]
 					let verif_cmd = cmd.clone();
 					self.exec_cmd(cmd)?;
-					#[cfg(vicut_verif)]
-					crate::verif::trace_after(self, &verif_cmd);
 					if return_to_normal {
 						self.set_normal_mode();
 					}
+					#[cfg(vicut_verif)]
+					crate::verif::trace_after(self, &verif_cmd);
 				}
 		}
 		Ok(())
